@@ -12,6 +12,9 @@ Case families
   corpus             the hand-written valid texts (incl. the snippets of lef21's own tests)
   directed           small texts for the version gates (statements of LEF <= 5.4 at every version, a second VERSION statement
                      after a gated statement), numbers in every spelling the reader accepts (exponents, 28 digits), odd names
+  version_gate_sweep exhaustive: every version spelling (none, 5, 5.0 .. 5.8, 5.40, 5.50, 5.60, 5.80) x every version-dependent statement
+                     of reader or writer (NAMESCASESENSITIVE, NOWIREEXTENSIONATPIN, MACRO SOURCE) and a set of later-version statements
+                     x the statement before / after VERSION x END LIBRARY present or not
   mutated            single-token faults (delete, duplicate, swap, replace) of the above that the reader still accepts"""
 import json, re
 from vlib import *
@@ -109,6 +112,17 @@ def version_gate_sweep():
 def tokens(s):
     return [(m.start(), m.end()) for m in TOKRE.finditer(s)]
 
+def clong(h, n=1600):
+    """hex string -> Coq bytes term; a long text is given in pieces (one string literal of some ten thousand characters
+    overflows coqc's stack)"""
+    if len(h) <= n:
+        return cbytes(h)
+    parts = [h[i:i + n] for i in range(0, len(h), n)]
+    t = '(unhex "%s")' % parts[-1]
+    for p in reversed(parts[:-1]):
+        t = '(app (unhex "%s") %s)' % (p, t)
+    return Raw(t)
+
 def gen_cases(chk):
     rng = chk.rng
     quick = chk.tier == "quick"
@@ -185,12 +199,12 @@ def evaluate(chk, cases, tag):
             out[i] = (2, 0)
             continue
         w = r.get("w") or {}
-        wt = "(Some %s)" % cbytes(w["text"]) if "text" in w else "None"
+        wt = "(Some %s)" % clong(w["text"]) if "text" in w else "None"
         wpanic = cbool("wpanic" in w or not w)
         i1 = res_to_coq(r["r"])
         i2 = res_to_coq(r.get("r2"))
         lib = lib_to_coq(r["r"]["ok"])
-        items.append("(c05_check %s %s %s %s %s, if res_matches (parse %s %s) %s then 0 else 1)" % (cfg, lib, wt, wpanic, i2, cfg, cbytes(c["src"]), i1))
+        items.append("(c05_check %s %s %s %s %s, if res_matches (parse %s %s) %s then 0 else 1)" % (cfg, lib, wt, wpanic, i2, cfg, clong(c["src"]), i1))
         idx.append(i)
     outs = coq_eval_lists(LEF_HDR, items, chk.rundir, tag, shard=max(20, len(items) // (3 * NCPU) + 1))
     for i, o in zip(idx, outs):
@@ -229,7 +243,8 @@ def run(chk, replay=None):
     chk.cov["input_distribution"] = dist
     chk.cov["rule"] = ("LEF texts; a text is a case when lef21 reads it (the property is about libraries in the image of the reader). Renderings of the C04 feature "
                        "libraries (one per field / variant / enum value of the data model) and of random libraries (versions none/5.3..5.8, random styles), the hand-written "
-                       "corpus, directed texts (version gates, a second VERSION statement, exponent and 28-digit numbers, odd names), and single-token faults of all of "
+                       "corpus, directed texts (version gates, a second VERSION statement, exponent and 28-digit numbers, odd names), an exhaustive sweep of version x "
+                       "version-dependent statement x position x END LIBRARY, and single-token faults of all of "
                        "these that are still accepted. Non-trivial: the text is accepted and the library read is not the empty library; distinct by text.")
     res, codes = evaluate(chk, cases, "c05")
     acc = [(c, r, k) for c, r, k in zip(cases, res, codes) if k is not None]
